@@ -8,6 +8,12 @@ def cut(s, n):
 rows = []
 for f in sorted(glob.glob("/verif/seeded/*/meta.json")):
     m = json.load(open(f)); i = f.split("/")[3]; d = m.get("detection", {})
+    if not d.get("check"):      # no recorded re-run: fall back to the verdicts stored when the change was confirmed
+        for c, line in (m.get("checks_result") or {}).items():
+            mm = re.search(r"rc=(\d+)", line or "")
+            if mm:
+                d = {"check": c, "tier": "quick", "exit_code": mm.group(1) + " (at confirmation time; the table of 13.7 says what closed it)" if mm.group(1) != "1" else "1"}
+                break
     also = m.get("also_caught_by") or ""
     if m.get("rebase_note"):
         also = (also + " ; " if also else "") + m["rebase_note"][:160]
